@@ -4,6 +4,9 @@ from .. import rules_fossil
 from .. import rules_mpi
 
 
+from .. import rules_cover
+
+
 def run(ck, progs):
     ck.not_decided = ("monotonicity and safety of the computed number under all interleavings of the two-phase reduction with message "
                       "traffic (a schedule property); equality of the value across ranks")
@@ -17,7 +20,10 @@ def run(ck, progs):
     ck.rule("C04.7", "each MPI collective is entered by the single thread elected through an RMW result")
     ck.rule("C04.8", "the two reductions across ranks: minimum of one double per rank, sum-scatter of one uint32 per rank, datatype = C type of the "
                      "buffers, separate static buffers, and the request each *_done sibling tests is the one started")
+    ck.rule("C04.9", "the node-level minimum folds the local minimum of every thread (evaluated for 1..8 threads and every position of the smallest value) and the per-destination send counts are accumulated for every rank (loop header evaluated for 1..8 ranks)")
     for cfg, P in progs.items():
+        rules_cover.check_node_minimum(ck, P, "C04.9")
+        rules_cover.check_sent_totals(ck, P, "C04.9")
         rules_gvt.check_extraction_first(ck, P, "C04.1")
         rules_gvt.check_two_peeks(ck, P, "C04.2")
         rules_gvt.check_consumers(ck, P, "C04.3")
